@@ -110,7 +110,9 @@ type Case struct {
 	Oracle []string `json:"oracle"`
 	Tags   []string `json:"tags"`
 	Site   string   `json:"site"`
-	Detail []string `json:"detail,omitempty"`
+	// Sites gives the site of every violated clause (Site is the first one).
+	Sites  map[string]string `json:"sites,omitempty"`
+	Detail []string          `json:"detail,omitempty"`
 }
 
 // ------------------------------------------------------- deterministic material
@@ -469,7 +471,9 @@ type runner struct {
 	objEpoch      map[waddrmgr.ManagedAddress]int
 }
 
-func bkey(scope [2]uint32, a, b uint32) string { return fmt.Sprintf("%d/%d/%d/%d", scope[0], scope[1], a, b) }
+func bkey(scope [2]uint32, a, b uint32) string {
+	return fmt.Sprintf("%d/%d/%d/%d", scope[0], scope[1], a, b)
+}
 func ikey(scope [2]uint32, a, b, i uint32) string {
 	return fmt.Sprintf("%d/%d/%d/%d/%d", scope[0], scope[1], a, b, i)
 }
@@ -742,6 +746,9 @@ func (r *runner) step(op Op) Result {
 			res = errResult(err)
 			if res.Err == "crypto" {
 				r.tags["unlock_fails_after_imported_account_was_used"] = true
+			}
+			if res.Err == "panic" {
+				r.violate("panic_in_address_derivation", "Unlock", err.Error())
 			}
 		} else if wasLocked {
 			r.tags["unlock"] = true
@@ -1343,6 +1350,7 @@ func runCase(o *oracleDB, dir string, in Input, recreate bool) Case {
 		c.Oracle = append(c.Oracle, k)
 	}
 	if len(kinds) > 0 {
+		c.Sites = r.bad
 		c.Site = r.bad[kinds[0]]
 		// prefer the site of the private-key clause when several kinds fired
 		for _, k := range kinds {
